@@ -83,7 +83,7 @@ var properties = map[string]*Property{
 		[]string{"crash points are the prefixes of the durable write log of a forward run (the crash index is a solver variable; the durable image is ite-encoded); in-memory state is lost, each write is atomic",
 			"shapes: one block with <=2 sequences x <=2 actions; 1x1x1 with the 7-subset family of plan-level resp. block-level groups; two parallel sequences (thorough: one scheduling deviation, and the slow-plugin scheduler)",
 			"a second crash during recovery with a third engine instance: thorough tier only, on one block x one sequence x two actions (VerifC09Double, VerifC10Double); the quick tier covers the second crash through C10's resumability clause", "real process kill on a file-backed store is outside this technique"}),
-	"C10": eProp("C10", []eRun{{"VerifC10SeqSmall", 0, 0, []string{"crash while the plan is durably Running", "uninterrupted outcome Failed", "uninterrupted outcome Completed", "crash under a coarse clock"}},
+	"C10": eProp("C10", []eRun{{"VerifC10SeqSmall", 0, 0, []string{"crash while the plan is durably Running", "uninterrupted outcome Failed", "uninterrupted outcome Completed"}},
 		{"VerifC10PlanGroups", 0, 0, []string{"crash while the plan is durably Running"}}, {"VerifC10BlockGroups", 0, 0, []string{"crash while the plan is durably Running"}},
 		{"VerifC10Conc", 0, 1, []string{"crash while the plan is durably Running", "uninterrupted outcome Failed"}},
 		{"VerifC10Conc@slow:t", 0, 0, []string{"crash while the plan is durably Running", "uninterrupted outcome Failed"}},
